@@ -11,6 +11,7 @@ import Flatland.Spec.C11
 import Proofs.Lemmas.C11Chain
 import Proofs.Lemmas.C11Decode
 import Proofs.Lemmas.C11Parse
+import Proofs.Lemmas.C11EndToEnd
 namespace Flatland.C11.Proofs
 open Flatland.C11 Flatland.Markup Flatland.Generated.C11
 
@@ -187,5 +188,95 @@ example : Good [('<', "&lt;".toList), ('&', "&amp;".toList)] = false := by decid
 example : escapeChain [('<', "&lt;".toList), ('&', "&amp;".toList)] ['<'] = "&amp;lt;".toList := by decide
 /-- a chain without the `"` entry is rejected -/
 example : AttrChainOK textChain = false := by decide
+
+end Flatland.C11.Proofs
+
+namespace Flatland.C11.Proofs
+open Flatland.C11 Flatland.Markup Flatland.Generated.C11 Flatland.C19.Proofs
+
+/-! ### end to end: `str(generator.<tag>(bind, **kwargs))` parses back -/
+
+/-- C11 THROUGH THE WHOLE GENERATOR.  For the tables of the current source, ANY generator state,
+    any valid tag name, ANY bound element (its flattened name and text are arbitrary strings — the
+    hostile data), and keyword arguments that are plain strings under valid attribute names
+    (no explicit `contents=`): if the call returns markup `s`, then `s` parses as exactly one
+    element of the requested tag; none of its attributes is an `auto_*` option; its text is empty
+    or exactly the bound element's text. -/
+theorem callTag_parses (g g' : Gen) (tag : Str) (bnd : Option Bind) (kwargs : List (Str × Val)) (s : Str)
+    (htag : validName tag = true) (hkw : GoodKwargs kwargs)
+    (hnc : Dict.get? kwargs "contents".toList = none)
+    (h : g.callTag Tables.current attrChain voidElements staticAttributeOrder tag bnd kwargs = .ok (s, g')) :
+    ∃ attrs text, Spec.ParsesTo decodeRefs voidElements s tag attrs text ∧
+      (∀ kv ∈ attrs, kv.1 ∉ optionKeys) ∧
+      (text = [] ∨ ∃ b, bnd = some b ∧ text = b.u) := by
+  unfold Gen.callTag at h
+  simp only [bind, Except.bind] at h
+  cases hp : prepareTag Tables.current staticAttributeOrder g tag bnd kwargs with
+  | error e => rw [hp] at h; simp at h
+  | ok r =>
+    rw [hp] at h; simp only at h
+    cases hr : renderTag attrChain voidElements g.xml tag r.pairs r.contents with
+    | error e => rw [hr] at h; simp at h
+    | ok s' =>
+      rw [hr] at h
+      simp only [pure, Except.pure, Except.ok.injEq, Prod.mk.injEq] at h
+      obtain ⟨rfl, _⟩ := h
+      have hno := options_never_rendered hp
+      obtain ⟨st6, o, ht, hpairs, hcont⟩ := prepareTag_full hp
+      have hk0 := erase_absent' kwargs "contents".toList hnc
+      rw [hk0, hnc] at ht
+      obtain ⟨hgood, hcok⟩ := transform_good (transformKeys_good kwargs hkw) ht
+      have hgp := goodAttrs_orderPairs staticAttributeOrder o st6.attrs hgood
+      rw [← hpairs] at hgp
+      obtain ⟨attrs, hattrs, hvalid⟩ := goodAttrs_as_text r.pairs hgp
+      -- the contents are the escaped form of a text that is empty or the bind's
+      have hc : ∃ t, r.contents = markupEscape textChain t ∧ (t = [] ∨ ∃ b, bnd = some b ∧ t = b.u) := by
+        simp only at hcok
+        rcases hcok with hc0 | ⟨b, hb, hc1⟩
+        · rw [hc0] at hcont; exact ⟨[], by rw [hcont]; rfl, Or.inl rfl⟩
+        · rw [hc1] at hcont; exact ⟨b.u, by rw [hcont]; rfl, Or.inr ⟨b, hb, rfl⟩⟩
+      obtain ⟨t, hct, htt⟩ := hc
+      obtain ⟨s2, hs2, hparse⟩ := parse_render_generic attrChain textChain attrChain_ok textChain_ok voidElements
+        g.xml tag attrs t htag hvalid
+      unfold renderData at hs2
+      rw [← hattrs, ← hct, hr] at hs2
+      simp only [Except.ok.injEq] at hs2
+      subst hs2
+      refine ⟨attrs, _, hparse, ?_, ?_⟩
+      · intro kv hm hopt
+        apply hno kv.1 hopt (.text kv.2)
+        rw [hattrs]
+        exact List.mem_map.mpr ⟨kv, hm, rfl⟩
+      · split
+        · left; rfl
+        · exact htt
+
+end Flatland.C11.Proofs
+
+namespace Flatland.C11.Proofs
+open Flatland.C11 Flatland.Markup Flatland.Generated.C11 Flatland.C19.Proofs
+
+/-! non-vacuity of `callTag_parses`: hostile bind, hostile attribute value, valid names -/
+
+def nvKwargs : List (Str × Val) :=
+  [("class_".toList, .text "x\" onclick=\"y".toList), ("type".toList, .text "text".toList)]
+def nvBind : Bind := ⟨"a\"b".toList, "\"><script>&amp;".toList, .scalar⟩
+def nvGen : Gen :=
+  match Gen.init Tables.current "xhtml".toList [("auto_domid".toList, .bool true)] with
+  | .ok g => g
+  | .error _ => ⟨false, ⟨[], []⟩⟩
+
+example : GoodKwargs nvKwargs := by
+  intro kv hm
+  simp only [nvKwargs, List.mem_cons, List.not_mem_nil, or_false] at hm
+  rcases hm with rfl | rfl <;> exact ⟨⟨_, rfl⟩, by decide⟩
+example : Dict.get? nvKwargs "contents".toList = none := by decide
+-- the call succeeds (so the theorem's hypothesis is met), with this output
+set_option maxRecDepth 10000 in
+example : (match nvGen.callTag Tables.current attrChain voidElements staticAttributeOrder "input".toList (some nvBind) nvKwargs with
+    | .ok (s, _) => some s
+    | .error _ => none) =
+    some ("<input type=\"text\" name=\"a&quot;b\" value=\"&quot;&gt;&lt;script&gt;&amp;amp;\" " ++
+          "class=\"x&quot; onclick=&quot;y\" id=\"f_a&quot;b\" />").toList := by decide
 
 end Flatland.C11.Proofs
